@@ -17,6 +17,7 @@ const libPrefix = "trpc.group/trpc-go/trpc-mcp-go."
 type census struct {
 	Lib     map[string]int // "<entry function of the library> @ <innermost frame>" -> count
 	Persist int            // net/http.(*persistConn).readLoop goroutines (one per client connection that is not closed)
+	Parked  int            // … of which parked in readLoop's select: the response body was handed out and is neither read to its end nor closed
 	FDs     int
 }
 
@@ -89,9 +90,11 @@ func takeCensus() census {
 				outerLib = f
 			}
 		}
-		if len(frames) > 0 && strings.HasPrefix(frames[0], "net/http.(*persistConn).readLoop") ||
-			(len(frames) > 1 && containsFrame(frames, "net/http.(*persistConn).readLoop")) {
+		if containsFrame(frames, "net/http.(*persistConn).readLoop") {
 			c.Persist++
+			if strings.HasPrefix(frames[0], "net/http.(*persistConn).readLoop") && strings.Contains(lines[0], "[select") {
+				c.Parked++
+			}
 		}
 		if outerLib == "" && !strings.HasPrefix(created, libPrefix) {
 			continue
@@ -150,7 +153,9 @@ func settle(base census, d time.Duration) census {
 	deadline := time.Now().Add(d)
 	for {
 		c := takeCensus()
-		if len(c.diffLib(base)) == 0 && c.Persist <= base.Persist && c.FDs <= base.FDs {
+		if len(c.diffLib(base)) == 0 && c.Persist-c.Parked <= base.Persist-base.Parked && (c.FDs <= base.FDs || c.Parked > base.Parked) {
+			// what is left are connections parked for good: once every call has returned, Close has returned and no library
+			// goroutine runs any more, nobody is left who could read or close their bodies
 			return c
 		}
 		if time.Now().After(deadline) {
